@@ -25,7 +25,7 @@ def work(chunk):
             for p in props:
                 rc, out = selftest.run_quiet(p, sc)
                 if rc != 0:
-                    lines = [l[:260] for l in out.split("\n") if ("  " + p + "-R") in l and not l.startswith(("NOTE", "KNOWN"))] + [l[:260] for l in out.split("\n") if l.startswith("ANALYSIS-ERROR")]
+                    lines = [l[:260] for l in out.split("\n") if ("  " + p + "-R") in l and not l.startswith(("NOTE", "KNOWN", "UNDECIDED"))] + [l[:260] for l in out.split("\n") if l.startswith("ANALYSIS-ERROR")]
                     if rc == 1:
                         fired[p] = {"rc": rc, "lines": lines[:6]}
                     else:
